@@ -113,8 +113,11 @@ def nwk_of(D, with_internal=True, quoted=False):
 
 def load_py(D, groups=None, species=None, **kw):
     """load the dataset with pyham (in-memory string transport); returns the Ham object"""
+    style = D.meta.get('style')
+    if species is not None and style and style.get('late_species'):
+        style = dict(style, late_species=None)        # (positions refer to D.species, not to the overriding list)
     xml = gen.orthoxml(species if species is not None else D.species, groups if groups is not None else D.groups,
-                       dbsplit=bool(D.meta.get('dbsplit')), style=D.meta.get('style'))
+                       dbsplit=bool(D.meta.get('dbsplit')), style=style)
     kw.setdefault('use_internal_name', D.naming == 'own')
     phylo_dir = kw.pop('phyloxml_dir', None)
     if phylo_dir and D.T[0] != '':      # (a PhyloXML clade cannot carry an empty name; unlabelled roots go the Newick way)
@@ -182,7 +185,8 @@ def write_replay(prop, seed, idx, payload):
 
 def dataset_payload(D, groups=None, species=None):
     return dict(newick=nwk_of(D), naming=D.naming,
-                orthoxml=gen.orthoxml(species if species is not None else D.species, groups if groups is not None else D.groups, dbsplit=bool(D.meta.get('dbsplit')), style=D.meta.get('style')),
+                orthoxml=gen.orthoxml(species if species is not None else D.species, groups if groups is not None else D.groups, dbsplit=bool(D.meta.get('dbsplit')),
+                                      style=(D.meta.get('style') if species is None else dict(D.meta.get('style') or {}, late_species=None))),
                 sexp=gen.sx_case('replay', D.T, D.naming, species if species is not None else D.species,
                                  groups if groups is not None else D.groups,
                                  histories=[(p, l) for p, l, _ in D.families]))
